@@ -304,6 +304,37 @@ pub fn archives(seed: u64, thorough: bool) -> Vec<Arch> {
             }
         }
     }
+    // local headers whose variable-length parts are long: name length + extra length at and beyond 65536 while each fits
+    // its own 16-bit field (long name + extra data / alignment padding / the 20-byte ZIP64 block of large_file)
+    {
+        let rec = |id: u16, n: usize| {
+            let mut v = id.to_le_bytes().to_vec();
+            v.extend_from_slice(&(n as u16).to_le_bytes());
+            v.extend(std::iter::repeat(0x42u8).take(n));
+            Call::Write(v)
+        };
+        let nm = |n: usize| -> String { (0..n).map(|i| (b'a' + (i % 23) as u8) as char).collect() };
+        let tail = vec![Call::StartFile { name: "after".into(), opts: FOpts::m(8) }, Call::Write(b"the entry after the long header, the entry after".to_vec()), Call::Finish];
+        let body = Call::Write(b"payload of the long-header entry".to_vec());
+        let progs: Vec<(&str, Vec<Call>)> = vec![
+            ("name40000+extra30000", vec![Call::StartExtra { name: nm(40000), opts: FOpts::m(0) }, rec(0xbeef, 30000), Call::EndExtra, body.clone()]),
+            ("name40000+central-only-extra30000", vec![Call::StartExtra { name: nm(40000), opts: FOpts::m(8) }, Call::EndLocalStartCentral, rec(0xbeef, 30000), Call::EndExtra, body.clone()]),
+            ("name65000+aligned4096", vec![Call::StartAligned { name: nm(65000), opts: FOpts::m(0), align: 4096 }, body.clone()]),
+            ("name65520+large_file", vec![Call::StartFile { name: nm(65520), opts: FOpts { large: true, ..FOpts::m(8) } }, body.clone()]),
+            ("name65535+large_file", vec![Call::StartFile { name: nm(65535), opts: FOpts { large: true, ..FOpts::m(0) } }, body.clone()]),
+            ("name65535", vec![Call::StartFile { name: nm(65535), opts: FOpts::m(0) }, body.clone()]),
+            ("name1+extra65531", vec![Call::StartExtra { name: "x".into(), opts: FOpts::m(0) }, rec(0xcafe, 65531), Call::EndExtra, body.clone()]),
+            ("name32768+extra32767", vec![Call::StartExtra { name: nm(32768), opts: FOpts::m(0) }, rec(0xcafe, 32763), Call::EndExtra, body.clone()]),
+            ("name32768+extra32768", vec![Call::StartExtra { name: nm(32768), opts: FOpts::m(0) }, rec(0xcafe, 32764), Call::EndExtra, body.clone()]),
+        ];
+        for (label, mut calls) in progs {
+            calls.extend(tail.iter().cloned());
+            let (res, bytes) = exec(&calls, &[]);
+            if res.iter().all(|r| r.is_ok()) {
+                add(format!("writer-long-header:{label}"), bytes, None, json!({"calls": calls_json(&calls)}), None);
+            }
+        }
+    }
     // builder: streamable layouts
     let content = b"streamable builder entry, streamable builder entry".to_vec();
     for (k, (m, le, ce, cm)) in [(0u16, false, false, false), (8, true, false, true), (12, false, true, false), (93, true, true, true)].iter().enumerate() {
